@@ -77,6 +77,11 @@ def random_configs(tier, rng):
         c = dict(D=D, lmin=1, lmax=2, version=0, nrbe=1, a=[float(x) for x in a], b=[float(x) for x in b], int_domain=True, maxleaves=60, name='integer domain %s-%s %s' % (a, b, kw))
         c.update(kw)
         out.append((c, 5 if D == 2 else 3))
+    # non-cubic domains in which interior coordinates of one dimension coincide with bounds of another dimension
+    for (a, b, kw) in [([0.0, 0.0], [1.0, 2.0], dict()), ([-1.0, 0.0], [1.0, 1.0], dict(version=1)), ([0.0, 0.0, 0.0], [1.0, 2.0, 4.0], dict(single=True))]:
+        c = dict(D=len(a), lmin=1, lmax=2, version=0, nrbe=1, a=a, b=b, maxleaves=60, name='coincidence domain %s-%s %s' % (a, b, kw))
+        c.update(kw)
+        out.append((c, 5 if len(a) == 2 else 3))
     if tier == 'thorough':
         for version in (0, 1, 2):
             out.append((dict(D=3, lmin=1, lmax=2, version=version, nrbe=1, chain=rng.randint(0, 7), maxleaves=80, name='corner chain 3D v%d' % version), 5))
